@@ -333,7 +333,11 @@ fn map_label(label: &ironplc_dsl::diagnostic::Label, project: &dyn Project) -> l
 
         let mut end_line = start_line;
         let mut end_offset = start_offset;
-        for char in contents[label.location.start..label.location.start].chars() {
+        // The end position continues from the start position over the text of the label.
+        let label_text = contents
+            .get(label.location.start..label.location.end)
+            .unwrap_or("");
+        for char in label_text.chars() {
             if char == '\n' {
                 end_line += 1;
                 end_offset = 0;
